@@ -175,16 +175,7 @@ func checkC15(c *Ctx, r *Result, tier string) {
 			ifuncs = append(ifuncs, fn)
 		}
 	}
-	total := 0
-	for _, fname := range []string{"breakPoints", "interrogationStates", "callStacks", "callStackVsSnapshots", "callStackGlobalVsSnapshots", "sources", "breakOnStart", "breakOnError", "lastVisit"} {
-		f := c.Field("interpreter", "ecalDebugger", fname)
-		if f == nil {
-			r.Undecide("field ecalDebugger.%s not found", fname)
-			continue
-		}
-		total += g.check(r, "R15c", GuardSpec{Field: f, FieldName: "ecalDebugger." + fname, Lock: "interpreter.ecalDebugger.lock", ReadLockOK: true},
-			ifuncs, func(*ssa.Function) string { return "" })
-	}
+	total := debuggerGuardedBy(c, r, g, "R15c", ifuncs)
 	r.Floor("R15c", total, 40)
 
 	// R15g: once a thread's state is visible as suspended (running == false published under the
@@ -197,6 +188,8 @@ func checkC15(c *Ctx, r *Result, tier string) {
 	// ---- R15e ---------------------------------------------------------------------------------
 	c15BreakOnError(c, r, dbgIface)
 	c15StopAll(c, r, dbgIface)
+	c15ReexamineAfterResume(c, r, dbgIface)
+	c15ContinueWakes(c, r, dbgIface)
 
 	// ---- R15d: the debugger lock is never re-acquired while held -------------------------------
 	nRe := checkReentrance(c, r, lfs, "R15d", func(class string) bool { return strings.HasPrefix(class, "interpreter.ecalDebugger") })
@@ -652,4 +645,47 @@ func c15NoPredicateReset(c *Ctx, r *Result, lfs *LockFlows) {
 		}
 	}
 	r.Floor("R15g", n, 2)
+}
+
+// debuggerGuardedFields: the fields of ecalDebugger that its lock protects — the confirmed ones, and
+// every other map- or slice-typed field (a table added later is shared by the command handlers and
+// the evaluating threads like the others) except those with a lock of their own.
+func debuggerGuardedFields(c *Ctx, r *Result) []*types.Var {
+	confirmed := []string{"breakPoints", "interrogationStates", "callStacks", "callStackVsSnapshots", "callStackGlobalVsSnapshots", "sources", "breakOnStart", "breakOnError", "lastVisit"}
+	ownLock := map[string]bool{"mutexeOwners": true} // guarded by mutexeOwnersLock (C16 R16f / C12)
+	var out []*types.Var
+	seen := map[string]bool{}
+	for _, fname := range confirmed {
+		f := c.Field("interpreter", "ecalDebugger", fname)
+		if f == nil {
+			r.Undecide("field ecalDebugger.%s not found", fname)
+			continue
+		}
+		seen[fname] = true
+		out = append(out, f)
+	}
+	if n := c.NamedType("interpreter", "ecalDebugger"); n != nil {
+		if st, ok := n.Underlying().(*types.Struct); ok {
+			for i := 0; i < st.NumFields(); i++ {
+				f := st.Field(i)
+				if seen[f.Name()] || ownLock[f.Name()] {
+					continue
+				}
+				switch f.Type().Underlying().(type) {
+				case *types.Map, *types.Slice:
+					out = append(out, f)
+				}
+			}
+		}
+	}
+	return out
+}
+
+func debuggerGuardedBy(c *Ctx, r *Result, g *guardChecker, rule string, ifuncs []*ssa.Function) int {
+	total := 0
+	for _, f := range debuggerGuardedFields(c, r) {
+		total += g.check(r, rule, GuardSpec{Field: f, FieldName: "ecalDebugger." + f.Name(), Lock: "interpreter.ecalDebugger.lock", ReadLockOK: true},
+			ifuncs, func(*ssa.Function) string { return "" })
+	}
+	return total
 }
